@@ -107,6 +107,17 @@ def apply(obj, ev: dict):
             if np.max(np.abs(obj.data.astype(np.int64))) * c <= np.iinfo(obj.data.dtype).max:
                 scaled = float(bind.ttb.tensor(obj.data * obj.data.dtype.type(c)).norm()) / c
         x = float(obj.norm()) if scaled is None else scaled
+        if isinstance(obj, bind.ttb.ktensor) and obj.ncomponents >= 1:
+            # the difference of two parameterisations of one Kruskal tensor denotes the zero tensor: its norm is a
+            # rounding residue of either sign under the square root, never "not a number"
+            for c in (3.0, 0.1, 0.7, 1.9, 1e-3, 7.3, 0.37):
+                other = obj.copy()
+                other.factor_matrices[0] = other.factor_matrices[0] * c
+                other.factor_matrices[-1] = other.factor_matrices[-1] * (c + 0.2)
+                other.weights = other.weights / c / (c + 0.2)
+                z = float((obj - other).norm())
+                if z != z or z > 1e-6 * (1.0 + abs(x)):
+                    raise bind.Inexact(f"norm of a Kruskal tensor that denotes zero = {z!r}")
         n2 = x * x
         r = round(n2)
         if abs(n2 - r) > 1e-6 * max(1.0, abs(n2)):
@@ -121,6 +132,10 @@ def apply(obj, ev: dict):
         if a["red"] == "halfsum":
             r = obj.collapse(d, lambda v: np.sum(v) / 2)
             return r * 2
+        if a["red"] == "wsum":
+            # defined on the VECTOR of selected entries, first index fastest (an N-way array has no such weights)
+            return obj.collapse(d, lambda v: float(np.dot(np.arange(1, np.asarray(v).shape[0] + 1), v))
+                                if np.asarray(v).ndim == 1 else float("nan"))
         return obj.collapse(d, {"sum": np.sum, "max": np.max, "min": np.min}[a["red"]])
     if op == "scale":
         F = bind.gamma(a["F"])
